@@ -215,3 +215,44 @@ while i < 3
 end while;
 ''')
 prog('empty_body', '')
+
+prog('ragged_elifs', '''
+x = 0;
+if x == 0
+  x = 1;
+      elif x == 1
+  x = 2;
+    elif x == 2
+  x = 3;
+elif x == 3
+  x = 4;
+else
+  x = 5;
+end if;
+''')
+prog('compact_elifs', '''
+x = 0;
+if (x == 0) x = 1; elif (x == 1) x = 2;
+elif (x == 2) x = 3; end if;
+''')
+prog('case_distinct_vars', '''
+total = 1;
+Total = 10;
+TOTAL = total + Total;
+create object instance d of Class;
+create object instance D of Other_Class;
+relate d to D across R2;
+x = D.Class_ID;
+''')
+prog('instance_handles', '''
+select any c from instances of Class;
+d = c;
+select many cs from instances of Class;
+ds = cs;
+e = d;
+es = ds;
+n = cardinality es;
+if not_empty e
+  n = n + 1;
+end if;
+''')
